@@ -519,7 +519,23 @@ pub fn demand_active(d: &DemandActive, pdu_source: u16) -> Built {
     b.u16le("da.pad2Octets", 0);
     b.nest("da.caps", &caps);
     b.u32le("da.sessionId", d.session_id);
-    share_control(PDUTYPE_DEMAND_ACTIVE, pdu_source, &b)
+    let mut out = share_control(PDUTYPE_DEMAND_ACTIVE, pdu_source, &b);
+    // the 16-bit words of every capability body as fields of their own, appended after the
+    // structural fields so that the indices of those stay what they were
+    let mut words = Vec::new();
+    for (i, (_, body)) in d.caps.iter().enumerate() {
+        let suffix = format!("cap{}.capabilityData", i);
+        if let Some(f) = out.fields.iter().find(|f| f.name.ends_with(&suffix)) {
+            for j in 0..body.len() / 2 {
+                words.push(crate::rd::Field { name: format!("{}.w{}", f.name, j), off: f.off + 2 * j, width: 2, be: false });
+            }
+            if body.len() % 2 == 1 {
+                words.push(crate::rd::Field { name: format!("{}.b{}", f.name, body.len() - 1), off: f.off + body.len() - 1, width: 1, be: false });
+            }
+        }
+    }
+    out.fields.extend(words);
+    out
 }
 
 pub fn deactivate_all(share_id: u32, pdu_source: u16) -> Built {
